@@ -18,6 +18,7 @@ mod c15;
 mod c16;
 mod c17;
 mod c18;
+mod c19;
 mod c20;
 mod jsonref;
 
@@ -50,6 +51,7 @@ fn main() {
         "c16" => c16::main(&args),
         "c17" => c17::main(&args),
         "c18" => c18::main(&args),
+        "c19" => c19::main(&args),
         "c20" => c20::main(&args),
         other => {
             eprintln!("unknown sub-command {:?}", other);
